@@ -190,6 +190,7 @@ def execute_program(check: Check, program: dict) -> dict:
 def _run_batch(args):
     check, seed, tier, indices = args
     out = []
+    done = []
     for run in indices:
         rng = prng.run_rng(seed, check.prop_id, run)
         program = check.draw(rng, tier, run)
@@ -198,6 +199,8 @@ def _run_batch(args):
         packed = execute_program(check, program)
         packed["run"] = run
         packed["program"] = program
+        packed["batch_prefix"] = list(done)  # programs this process executed before (state may leak across objects)
+        done.append(program)
         out.append(packed)
     return out
 
@@ -300,7 +303,7 @@ def shrink(check: Check, program: dict, violation: dict, findings: list, workers
 # ------------------------------------------------------------------ replay files
 
 
-def write_replay(check: Check, program: dict, violation: dict, digest: str, minimised: bool, original=None) -> str:
+def write_replay(check: Check, program: dict, violation: dict, digest: str, minimised: bool, original=None, prefix=None) -> str:
     d = os.path.join(VERIF_ROOT, "replays")
     os.makedirs(d, exist_ok=True)
     name = f"{check.prop_id}-{program.get('_seed', 0)}-{program.get('_run', 0)}.json"
@@ -314,6 +317,7 @@ def write_replay(check: Check, program: dict, violation: dict, digest: str, mini
                 "digest": digest,
                 "minimised": minimised,
                 "original_program": oplog._canon(original) if original is not None else None,
+                "same_process_prefix": oplog._canon(prefix) if prefix else [],
             },
             f,
             indent=1,
@@ -328,6 +332,9 @@ def replay_file(check: Check, path: str) -> int:
     program = data["program"]
     findings = oplog.load_known_findings()
     check.warmup("replay")
+    for pre in data.get("same_process_prefix") or []:
+        # programs the failing process had executed before: the violation needs state they left behind
+        execute_program(check, pre)
     packed = execute_program(check, program)
     bad = [v for v in packed["violations"] if oplog.match_known(check.prop_id, v, findings) is None]
     for v in packed["violations"]:
@@ -565,7 +572,18 @@ def main(check: Check, argv=None) -> int:
                 print(f"VIOLATION property={check.prop_id} replay={path}")
                 reported += 1
                 exit_code = 1
-            else:
+                continue
+            if p.get("batch_prefix"):
+                # not reproducible alone: replay together with what the same process executed before
+                path = write_replay(check, p["program"], v0, p["digest"], False, prefix=p["batch_prefix"])
+                rp = subprocess.run([sys.executable, os.path.join(VERIF_ROOT, "bin", "check"), check.prop_id, "--replay", path], capture_output=True, text=True, timeout=cfg["timeout"] * 4)
+                if rp.returncode == 1 and f"VIOLATION property={check.prop_id}" in rp.stdout:
+                    print(f"  (reproduces only after the {len(p['batch_prefix'])} programs the same process ran before: state shared across objects)")
+                    print(f"VIOLATION property={check.prop_id} replay={path}")
+                    reported += 1
+                    exit_code = 1
+                    continue
+            if True:
                 print(f"HARNESS-ERROR: violation in run {p['run']} did not reproduce in a fresh process (rc={rp.returncode}); replay file {path}\n{rp.stdout[-2000:]}\n{rp.stderr[-2000:]}")
                 exit_code = max(exit_code, 2) if exit_code != 1 else 1
                 harness_msgs.append({"status": "non-reproducible", "detail": path})
